@@ -23,6 +23,12 @@ use crate::tokinizer::{TokenInfo};
 
 pub fn small_date(config: &SmartCalcConfig, _: &Tokinizer, fields: &BTreeMap<String, Rc<TokenInfo>>) -> core::result::Result<TokenType, String> {
     if (fields.contains_key("day")) && fields.contains_key("month") {
+        /* A day, month or year with a fraction is not a date, "1,5/2/2020" is a division */
+        let is_whole = |name: &str| get_number(name, fields).map(|number| number.fract() == 0.0).unwrap_or(true);
+        if !is_whole("day") || !is_whole("month") || !is_whole("year") {
+            return Err("Date is not valid".to_string());
+        }
+
         let day = match get_number("day", fields) {
             Some(number) => number,
             _ => return Err("Number information not valid".to_string())
